@@ -470,6 +470,8 @@ impl Handle {
     pub fn set_config(&self, config: Config) {
         let shared = SharedLogger::new(config);
         log::set_max_level(shared.root.max_log_level());
+        #[cfg(feature = "verif_hooks")]
+        crate::verif_hooks::critical_section_point("set_config:between-max-level-and-store");
         self.shared.store(Arc::new(shared));
     }
 }
